@@ -4,6 +4,7 @@ import (
 	"context"
 
 	sdk "github.com/cosmos/cosmos-sdk/types"
+	banktypes "github.com/cosmos/cosmos-sdk/x/bank/types"
 	capabilitytypes "github.com/cosmos/cosmos-sdk/x/capability/types"
 	transfertypes "github.com/cosmos/ibc-go/v3/modules/apps/transfer/types"
 	channeltypes "github.com/cosmos/ibc-go/v3/modules/core/04-channel/types"
@@ -61,7 +62,7 @@ func (stubErr) Error() string { return "conversion failed" }
 //   M3 a successful conversion is committed exactly once
 func VerifC16Middleware() {
 	ctx := rt.Ctx()
-	k := keeper.NewKeeper(rt.StoreKey(types.StoreKey), rt.Codec(), rt.Subspace(), nil, nil, nil)
+	k := keeper.NewKeeper(rt.StoreKey(types.StoreKey), rt.Codec(), rt.Subspace(), nil, anyBank{}, nil)
 	app := &stubTransfer{}
 	mw := NewIBCMiddleware(*k, app)
 	var packet channeltypes.Packet
@@ -84,9 +85,11 @@ func VerifC16Middleware() {
 	}
 
 	converted, convOK := 0, false
+	var asked *types.MsgConvertCoin
 	rt.Override("(github.com/teleport-network/teleport/x/aggregate/keeper.Keeper).ConvertCoin", func(_ keeper.Keeper, goCtx context.Context, msg *types.MsgConvertCoin) (*types.MsgConvertCoinResponse, error) {
 		c := sdk.UnwrapSDKContext(goCtx)
 		converted++
+		asked = msg
 		// the conversion's bank/EVM effects land in the context it was given
 		c.KVStore(rt.StoreKey("bank")).Set([]byte("effect"), []byte{1})
 		convOK = rt.Bool("conversion-succeeds")
@@ -104,6 +107,15 @@ func VerifC16Middleware() {
 		rt.Reach("conversion-failed")
 		rt.Assert("M2-failed-conversion-leaves-nothing", rt.StoreWrites(ctx, "bank") == 0)
 	}
+	if converted > 0 {
+		// the conversion is asked for exactly the received amount of the voucher, for the packet's receiver - whatever
+		// vouchers the receiver held before
+		amt, _ := sdk.NewIntFromString(data.Amount)
+		denom, _ := types.IBCDenom(packet.GetDestPort(), packet.GetDestChannel(), data.Denom)
+		want, wantErr := sdk.AccAddressFromBech32(data.Receiver)
+		got, gotErr := sdk.AccAddressFromBech32(asked.Sender)
+		rt.Assert("M4-converts-exactly-the-received-amount", asked.Coin.Denom == denom && asked.Coin.Amount.Equal(amt) && (wantErr != nil || gotErr == nil && got.Equals(want)))
+	}
 	if converted > 0 && convOK {
 		rt.Reach("conversion-ok")
 		rt.Assert("M3-conversion-committed-once", converted == 1 && rt.StoreWrites(ctx, "bank") == 1)
@@ -114,4 +126,22 @@ func VerifC16Middleware() {
 	}
 	rt.Known("H2a-hook-returns-nil-ack", app.ack.ok)
 	rt.Assert("M1-ack-is-the-transfer-ack", rt.SameObject(got, app.ack))
+}
+
+// anyBank: the bank keeper as the hook may consult it - every balance is arbitrary (the receiver may already hold vouchers).
+type anyBank struct{}
+
+func (anyBank) SendCoinsFromModuleToAccount(sdk.Context, string, sdk.AccAddress, sdk.Coins) error { return stubErr{} }
+func (anyBank) SendCoinsFromAccountToModule(sdk.Context, sdk.AccAddress, string, sdk.Coins) error { return stubErr{} }
+func (anyBank) MintCoins(sdk.Context, string, sdk.Coins) error                                    { return stubErr{} }
+func (anyBank) BurnCoins(sdk.Context, string, sdk.Coins) error                                    { return stubErr{} }
+func (anyBank) IsSendEnabledCoin(sdk.Context, sdk.Coin) bool                                      { return rt.Bool("send-enabled") }
+func (anyBank) BlockedAddr(sdk.AccAddress) bool                                                   { return rt.Bool("blocked") }
+func (anyBank) GetDenomMetaData(sdk.Context, string) (banktypes.Metadata, bool)                   { return banktypes.Metadata{}, false }
+func (anyBank) SetDenomMetaData(sdk.Context, banktypes.Metadata)                                  {}
+func (anyBank) HasSupply(sdk.Context, string) bool                                                { return true }
+func (anyBank) GetBalance(_ sdk.Context, _ sdk.AccAddress, denom string) sdk.Coin {
+	b := rt.BigInt("balance")
+	rt.Assume(b.Sign() >= 0 && b.BitLen() <= 200)
+	return sdk.Coin{Denom: denom, Amount: sdk.NewIntFromBigInt(b)}
 }
